@@ -324,7 +324,12 @@ class PathCond(object):
         self.dag_pred = {b: [(p, ix) for (p, ix) in dag_pred.get(b, ()) if p in region] for b in region}
         self.cond = {}
         self.atoms = []
+        # only branches the target is (transitively, within the iteration) control dependent on can decide whether it
+        # is reached; every other branch in the region leads to the target on both edges
+        ctrl = set(a for (a, ix) in cfg.transitive_control_deps(target))
         for b in region:
+            if b not in ctrl:
+                continue
             blk = blocks[b]
             live = [s for s in blk.succ if s is not None]
             if len(blk.succ) == 2 and len(live) >= 1 and blk.succ[0] != blk.succ[1]:
